@@ -191,6 +191,55 @@ theorem mkTree_left_perfect (items : List RBytes) (h2 : 2 ≤ items.length) :
     · exact hlt
     · rw [Nat.pow_succ]; unfold powerOfTwo at hle; omega
 
+/-! ### what the tags buy (symbolic model of the hash) -/
+
+/-- the byte-level root is the abstract root with `hl x = h (0 ‖ x)`, `hb l r = h (1 ‖ l ‖ r)` -/
+theorem root_eq_rootG (h : RBytes → RBytes) (t : Tree) :
+    t.root h = t.rootG (fun x => h (0 :: x)) (fun l r => h (1 :: (l ++ r))) := by
+  induction t with
+  | leaf x => rfl
+  | branch l r ihl ihr => simp [Tree.root, Tree.rootG, ihl, ihr]
+
+/-- With an ideal (collision-free) leaf hash and pair hash whose ranges are
+    disjoint — which is what the tags 0 and 1 are for — the root determines the tree. -/
+theorem tree_root_injective {D : Type} (hl : RBytes → D) (hb : D → D → D)
+    (hli : ∀ x y, hl x = hl y → x = y)
+    (hbi : ∀ a b c d, hb a b = hb c d → a = c ∧ b = d)
+    (hdisj : ∀ x a b, hl x ≠ hb a b) :
+    ∀ t1 t2 : Tree, t1.rootG hl hb = t2.rootG hl hb → t1 = t2 := by
+  intro t1
+  induction t1 with
+  | leaf x =>
+    intro t2 h
+    cases t2 with
+    | leaf y => rw [hli x y h]
+    | branch l r => exact absurd h (hdisj _ _ _)
+  | branch l r ihl ihr =>
+    intro t2 h
+    cases t2 with
+    | leaf y => exact absurd h.symm (hdisj _ _ _)
+    | branch l' r' =>
+      obtain ⟨h1, h2⟩ := hbi _ _ _ _ h
+      rw [ihl l' h1, ihr r' h2]
+
+/-- …and therefore the item list: two non-empty lists with the same root are equal
+    (no second list, of any length, shares a root — in the symbolic model). -/
+theorem merkle_root_binds_items {D : Type} (hl : RBytes → D) (hb : D → D → D)
+    (hli : ∀ x y, hl x = hl y → x = y)
+    (hbi : ∀ a b c d, hb a b = hb c d → a = c ∧ b = d)
+    (hdisj : ∀ x a b, hl x ≠ hb a b)
+    (l1 l2 : List RBytes) (h1 : l1 ≠ []) (h2 : l2 ≠ [])
+    (h : (mkTree l1).rootG hl hb = (mkTree l2).rootG hl hb) : l1 = l2 := by
+  have := tree_root_injective hl hb hli hbi hdisj _ _ h
+  rw [← mkTree_leaves l1 h1, ← mkTree_leaves l2 h2, this]
+
+/-- the hypotheses are satisfiable: the free algebra (digest = the tree itself) -/
+example : ∀ l1 l2 : List RBytes, l1 ≠ [] → l2 ≠ [] →
+    (mkTree l1).rootG Tree.leaf Tree.branch = (mkTree l2).rootG Tree.leaf Tree.branch → l1 = l2 :=
+  fun l1 l2 h1 h2 h => merkle_root_binds_items Tree.leaf Tree.branch
+    (fun _ _ h => by injection h) (fun _ _ _ _ h => by injection h with a b; exact ⟨a, b⟩)
+    (fun _ _ _ h => by cases h) l1 l2 h1 h2 h
+
 /-! Non-vacuity and concrete shapes (toy hash = identity, so the root spells the tree). -/
 example : merkleRoot id [[7], [8], [9]] = [1, 1, 0, 7, 0, 8, 0, 9] := by
   simp [merkleRoot, merkleNode, largestPow2Below, lp2Loop, merkleLeafTag, merkleBranchTag]
